@@ -40,8 +40,8 @@ func loadFindings(home, prop string) map[string]KnownFinding {
 	sc.Buffer(make([]byte, 1<<20), 1<<20)
 	for sc.Scan() {
 		line := strings.TrimSpace(sc.Text())
-		if line == "" || strings.HasPrefix(line, "#") {
-			continue
+		if !strings.HasPrefix(line, "{") {
+			continue // comments and "fixed: property=..." records suppress nothing
 		}
 		var k KnownFinding
 		if json.Unmarshal([]byte(line), &k) == nil && k.Property == prop && k.Status == "known" {
